@@ -80,6 +80,10 @@ var batchAlpha = []hx.Op{
 
 const coreN = 12
 
+// dbCfg is hx's base configuration with a 32 KiB memtable (a fresh DB is opened per case; zeroing a
+// 256 KiB arena per Open dominated the run time). Batches stay far below the large-batch threshold.
+var dbCfg = hx.Config{Name: "memtable32k", MemTableSize: 32 << 10}
+
 type dbState struct {
 	Name string
 	Hist []hx.Op
@@ -87,6 +91,7 @@ type dbState struct {
 	model *hx.Model
 	sig   string // fine signature (visible state, SingleDelete class, LSM shape, memtable contents)
 	csig  string // coarse signature (visible state, LSM shape)
+	members int  // histories in this state's deduplication class
 }
 
 // Case is the replay artefact: one DB state (as the history that builds it) and one batch-op sequence.
@@ -459,7 +464,7 @@ func runCase(c *vlib.Ctx, st *dbState, seq []hx.Op, verbose bool) (f *failure, s
 		r.views[j+1] = m.Clone()
 	}
 
-	x, err := hx.Open(vfs.NewMem(), "db", hx.Config{Name: "base"})
+	x, err := hx.Open(vfs.NewMem(), "db", dbCfg)
 	if err != nil {
 		return &failure{class: "open-error", desc: err.Error()}, false, r
 	}
@@ -728,7 +733,7 @@ var reVal = regexp.MustCompile(`v\d+`)
 
 // prepare replays a state's history on a real DB and on the model and computes its signatures.
 func prepare(st *dbState) error {
-	x, err := hx.Open(vfs.NewMem(), "db", hx.Config{Name: "base"})
+	x, err := hx.Open(vfs.NewMem(), "db", dbCfg)
 	if err != nil {
 		return err
 	}
@@ -788,6 +793,15 @@ func buildStates(thorough bool) ([]*dbState, int, error) {
 	total := len(all)
 	var out []*dbState
 	seen := map[string]int{}
+	weight := func(st *dbState) int {
+		n := 0
+		for _, op := range st.Hist {
+			if op.K != "flush" {
+				n++
+			}
+		}
+		return n
+	}
 	for _, st := range all {
 		if err := prepare(st); err != nil {
 			return nil, 0, err
@@ -797,12 +811,16 @@ func buildStates(thorough bool) ([]*dbState, int, error) {
 			sig = st.csig
 		}
 		if j, ok := seen[sig]; ok {
-			if !thorough {
-				out[j] = st // keep the last member of the coarse class
+			// representative of a class: the member with the most internal keys, the earliest of those
+			if weight(st) > weight(out[j]) {
+				st.members = out[j].members
+				out[j] = st
 			}
+			out[j].members++
 			continue
 		}
 		seen[sig] = len(out)
+		st.members = 1
 		out = append(out, st)
 	}
 	for i := range handShapes {
@@ -854,7 +872,7 @@ func TestCheck(t *testing.T) {
 		}
 		var names []string
 		for _, s := range states {
-			names = append(names, s.Name)
+			names = append(names, fmt.Sprintf("%s (x%d)", s.Name, s.members))
 		}
 		c.Note("db_states", names)
 		var plans []plan
